@@ -478,7 +478,7 @@ func runC12(c *CaseCtx) {
 								if len(k) == len(first.Key) && !touched[first.B+"\x00"+string(k)] {
 									v := make([]byte, len(first.Val))
 									for i := range v {
-										v[i] = 'f'
+										v[i] = 1 // (not a letter: bytes of a value that end up where a header is expected are read as sizes)
 									}
 									extra = append(extra, Op{K: "Put", B: first.B, Key: k, Val: v})
 									break
@@ -495,7 +495,7 @@ func runC12(c *CaseCtx) {
 								}
 								v := make([]byte, int(cfg.Seg)/6)
 								for i := range v {
-									v[i] = byte('a' + n)
+									v[i] = byte(1 + n)
 								}
 								extra = append(extra, Op{K: "Put", B: b, Key: k, Val: v})
 							}
